@@ -16,11 +16,14 @@ package crdt
 
 import (
 	"bytes"
+	"errors"
 	"reflect"
 	"sync"
 
 	"github.com/kelindar/binary"
 )
+
+var errInvalidValue = errors.New("crdt: value is too short")
 
 // Volatile represents a last-write-wins CRDT set.
 type Volatile struct {
@@ -187,12 +190,17 @@ func (c *codecVolatile) DecodeTo(d *binary.Decoder, rv reflect.Value) (err error
 	for i := 0; i < int(size); i++ {
 		k, err := d.ReadSlice()
 		if err != nil {
-			return nil
+			return err
 		}
 
 		v, err := d.ReadSlice()
 		if err != nil {
-			return nil
+			return err
+		}
+
+		// The value must at least hold the add and remove times
+		if len(v) < 16 {
+			return errInvalidValue
 		}
 
 		out.data[binary.ToString(&k)] = decodeValue(binary.ToString(&v))
